@@ -699,7 +699,7 @@ impl Statement {
         let column = parse.col.clone();
         let mut idents = parse.expect_ident_list()?;
         if idents.is_empty() {
-            return Err(error!(SyntaxError, ..&(column.start..column.start); "EXPECTED VARIABLE"));
+            return Err(error!(SyntaxError, ..&column; "EXPECTED VARIABLE"));
         }
         let vec_var = idents
             .drain(..)
